@@ -476,7 +476,8 @@ def coq_check_cases(cases, tag, checker="check_case", per_shard=None, timeout=15
             p = max(1, int(p))
         except (TypeError, ValueError):
             p = 1
-        return len(c.ops) * (1 + (p if checker != "check_case" else 0) / 16.0)
+        # the list-based float model costs O(period) per ring update too (it only matters for windows of hundreds of slots)
+        return len(c.ops) * (1 + (p / 16.0 if checker != "check_case" else p / 100.0))
     order = sorted(range(n), key=lambda i: -cost(cases[i]))
     bins = [[] for _ in range(nsh)]
     load = [0.0] * nsh
